@@ -198,6 +198,9 @@ def constructed(rng):
                         add("mulr", G.fD(sg_ * (x_ // y_), a_), G.fD(y_, b_), n_)
                         add("mulr", G.fD(y_, b_), G.fD(-sg_ * (x_ // y_), a_), n_)
                         break
+    #     products just below a primitive-type maximum whose cut-off digits are all nines / zero / one / half
+    for x_, a_, y_, b_, n_ in C.products_near_type_maxima(rng):
+        add("mulr", G.fD(x_ * rng.choice((1, -1)), a_), G.fD(y_ * rng.choice((1, -1)), b_), n_)
     #     ... and the same for products beyond i128 (the wide kernel), see common.wide_tie_word_products
     for x_, a_, y_, b_, n_ in C.wide_tie_word_products(rng):
         sg_ = rng.choice((1, -1))
